@@ -79,8 +79,9 @@ def build(variant, bins):
     return os.path.join(TARGET, variant, "debug")
 
 
-def run_bin(variant, binname, tier, extra, part_out=None, replay=None, timeout=None):
-    """Run an explorer; returns (exit code, stdout)."""
+def run_bin(variant, binname, tier, extra, part_out=None, replay=None, timeout=None, tolerate_crash=False):
+    """Run an explorer; returns (exit code, stdout). A crash is a machinery failure (exit 2), unless
+    `tolerate_crash`: then (2, stdout) is returned and the caller decides."""
     bindir = os.path.join(TARGET, variant, "debug")
     cmd = [os.path.join(bindir, binname), tier, "--variant", variant] + list(extra)
     if part_out:
@@ -97,6 +98,11 @@ def run_bin(variant, binname, tier, extra, part_out=None, replay=None, timeout=N
     sys.stdout.write(r.stdout)
     if r.returncode not in (0, 1):
         sys.stderr.write(r.stderr[-4000:])
+        if tolerate_crash:
+            print(f"MACHINERY-ERROR: {binname} ({variant}) ended with status {r.returncode}")
+            if part_out and os.path.exists(part_out):
+                os.remove(part_out)
+            return 2, r.stdout
         machinery(f"{binname} ({variant}) ended with status {r.returncode}")
     if r.returncode == 1 and "VIOLATION property=" not in r.stdout:
         sys.stderr.write(r.stderr[-4000:])
@@ -194,16 +200,27 @@ def run_rust_check(pid, tier, replay, start, level, plan, timeout=None):
             build(variant, sorted(bins))
     worst = 0
     parts = []
+    crashed = []
     for idx, (variant, binname, extra) in enumerate(plan):
         part_out = os.path.join(TARGET, "parts", f"{pid}-{idx}-{variant}-{binname}.json")
         if os.path.exists(part_out):
             os.remove(part_out)
-        code, _ = run_bin(variant, binname, tier, extra, part_out=part_out, replay=replay, timeout=timeout)
+        code, _ = run_bin(variant, binname, tier, extra, part_out=part_out, replay=replay, timeout=timeout, tolerate_crash=not replay)
         worst = max(worst, code)
         if replay:
             return code
         if not os.path.exists(part_out):
-            machinery(f"{binname} ({variant}) wrote no result file")
+            # an explorer that died (e.g. a second panic while unwinding aborts the process) gives no
+            # verdict; a violation reported by another explorer of the same check still stands
+            crashed.append(f"{binname} ({variant})")
+            continue
         parts.append((f"{binname}:{variant}" + (":" + " ".join(extra) if extra else ""), json.load(open(part_out))))
-    merge_parts(pid, tier, level, parts, start)
+    violation_seen = any(doc.get("violations", 0) > 0 for _, doc in parts)
+    if crashed and not violation_seen:
+        machinery(f"{', '.join(crashed)} wrote no result file")
+    if parts:
+        merge_parts(pid, tier, level, parts, start)
+    if crashed:
+        print(f"note: {', '.join(crashed)} ended without a result (machinery failure); the violations above were reported by the other explorer(s)")
+        return 1
     return worst
